@@ -235,3 +235,18 @@ Theorem C02_width0_iff_stored_equal_refuted :
     col_fields (ColNum 12 false raws) = [FUint 12 2732; FUint 6 2; FUint 2 0; FUint 2 0]%Z.
 Proof. exact width0_iff_stored_equal_refuted. Qed.
 Print Assumptions C02_width0_iff_stored_equal_refuted.
+
+(* bit level: for a column in the representable range (2 <= w <= 64, values
+   0 .. 2^w - 2 or missing, spread below 2^63) the fields of the canonical column
+   are, MSB first, the reference bit layout of Column.v: base in w bits, the width
+   in 6 bits, one increment per subset, all ones for missing (the layout every
+   legal reader accepts: C05 dec_col_any_width) *)
+Theorem C02_compressed_num_column_bits : forall w raws o,
+  col_dom_num w false raws = true ->
+  write_fields (num_fields w false raws) o =
+  Ok (o ++ lay_col_num w (Z.of_N (canon_width (col_spread raws))) (Z.to_N (col_min w raws)) (raw_view raws)).
+Proof. exact num_fields_bits. Qed.
+Print Assumptions C02_compressed_num_column_bits.
+Example C02_num_column_bits_nonvacuous :
+  col_dom_num 12 false [Some 2730; Some 2800; None]%Z = true.
+Proof. reflexivity. Qed.
